@@ -525,7 +525,9 @@ func c16ReadLoop(w *World, r *Report) {
 	if n == 0 {
 		usesCopy := false
 		for _, fn := range fns {
-			if len(calls(fn, false, func(c ssa.CallInstruction) bool { return isStdCall(c, "io.Copy") || isStdCall(c, "io.CopyBuffer") || isStdCall(c, "io.CopyN") })) > 0 {
+			if len(calls(fn, false, func(c ssa.CallInstruction) bool {
+				return isStdCall(c, "io.Copy") || isStdCall(c, "io.CopyBuffer") || isStdCall(c, "io.CopyN")
+			})) > 0 {
 				usesCopy = true
 			}
 		}
@@ -579,7 +581,6 @@ func c16CopyShape(w *World, r *Report) {
 	})
 	r.Check(short, "C16-d", fnName(cof), "short write is an error", w.relFile(cof.Pos()), "", "a short write is not turned into an error")
 }
-
 
 // localClosureCallee: the call invokes a closure that the enclosing function created and this function captured (or
 // holds in a local): `skip := func(..){..}; fs.WalkDir(.., func(..){ skip(..) })`.
